@@ -139,3 +139,28 @@ pub fn merge(a: Value, b: Value) -> Value {
 pub fn sum8(b: &[u8]) -> u8 {
     b.iter().fold(0u8, |a, x| a.wrapping_add(*x))
 }
+
+
+/// A sink that implements nothing but `byte()`: wide pushes reach it through the trait's default methods.
+pub struct ByteOnly(pub Vec<u8>);
+impl acpi_tables::AmlSink for ByteOnly {
+    fn byte(&mut self, b: u8) {
+        self.0.push(b)
+    }
+}
+
+/// Serialise into a vector; every third call goes through a byte-only sink instead (the properties speak of "the bytes
+/// delivered by serialisation", whatever the sink).
+pub fn ser(a: &dyn acpi_tables::Aml) -> Vec<u8> {
+    use std::sync::atomic::{AtomicUsize, Ordering};
+    static N: AtomicUsize = AtomicUsize::new(0);
+    if N.fetch_add(1, Ordering::Relaxed) % 3 == 2 {
+        let mut s = ByteOnly(Vec::new());
+        a.to_aml_bytes(&mut s);
+        s.0
+    } else {
+        let mut v = Vec::new();
+        a.to_aml_bytes(&mut v);
+        v
+    }
+}
